@@ -186,8 +186,8 @@ type c13State struct {
 
 func runC13(c *Ctx) error {
 	thorough := c.Tier == "thorough"
-	nprog := envInt("VERIF_C13_PROGRAMS", 500)
-	ncli := envInt("VERIF_C13_CLI", 36)
+	nprog := envInt("VERIF_C13_PROGRAMS", 900)
+	ncli := envInt("VERIF_C13_CLI", 60)
 	nfid := 0
 	if thorough {
 		nprog = envInt("VERIF_C13_PROGRAMS", 60000)
